@@ -76,7 +76,7 @@ _BUILTIN_BASES = {"AssertionError": "Exception", "ValueError": "Exception", "Key
                   "InvalidOperation": "DecimalException", "DecimalException": "ArithmeticError", "ArithmeticError": "Exception", "ZeroDivisionError": "ArithmeticError",
                   "TokenError": "Exception", "SyntaxError": "Exception", "IndentationError": "SyntaxError", "UnicodeEncodeError": "UnicodeError", "FileNotFoundError": "OSError",
                   "IsADirectoryError": "OSError", "PermissionError": "OSError", "IOError": "OSError", "UnboundLocalError": "NameError", "RecursionError": "RuntimeError",
-                  "Error": "Exception", "error": "Exception", "XLRDError": "Exception", "BadZipFile": "Exception", "ParseError": "SyntaxError", "SystemExit": "BaseException", "KeyboardInterrupt": "BaseException"}
+                  "Error": "Exception", "error": "Exception", "XLRDError": "Exception", "BadZipFile": "Exception", "EOFError": "Exception", "ParseError": "SyntaxError", "SystemExit": "BaseException", "KeyboardInterrupt": "BaseException"}
 _ALIASES = {"EnvironmentError": "OSError", "IOError": "OSError"}
 def _builtin_subclass(name, base):
     name = _ALIASES.get(name, name); base = _ALIASES.get(base, base)
